@@ -237,7 +237,7 @@ pub const RATES: [f64; 6] = [0.0, 0.1, 0.5, 0.9, 1.0, 0.25];
 ///  memo    — 3000..4000 opcodes so that the memo exceeds 255 entries (protocols with BINPUT)
 ///  small   — 0..12 opcodes (dense coverage of short programs and of the collapse phase)
 pub fn sample_case(rng: &mut Rng, id: u64, profile: &str, unsafe_sel: &str) -> Case {
-    let proto = (id % 6) as usize;
+    let proto = if profile == "big" { 4 + (id % 2) as usize } else { (id % 6) as usize };
     let unsafe_m = match unsafe_sel {
         "0" => false,
         "1" => true,
